@@ -71,19 +71,21 @@ func H01res() {
 		return inner + " "
 	}
 	uses := func() string {
+		// (the first choice of every group is a benign one, so that varying one group is not
+		// cut short by an error of another)
 		switch pick(0, 4) {
-		case 0:
-			return "uses ga;"
 		case 1:
-			return "uses gb;"
+			return "uses ga;"
 		case 2:
+			return "uses gb;"
+		case 3:
 			return "uses m:ga;"
 		}
 		return "leaf plain { type string; }"
 	}
 	ga := "grouping ga { " + wrap(pick(0, 4), uses()) + "} "
 	gb := "grouping gb { " + wrap(pick(0, 4), uses()) + "} "
-	targets := []string{"/m:lf", "/m:ll", "/m:c", "/m:ls", "/m:ch", "/m:ch/m:cs", "/m:r", "/m:r/m:input", "/m:r/m:output", "/m:nt", "/m:ad", "/m:missing", "/m:c/m:deep/m:er", "/zz:c"}
+	targets := []string{"/m:c", "/m:ll", "/m:lf", "/m:ls", "/m:ch", "/m:ch/m:cs", "/m:r", "/m:r/m:input", "/m:r/m:output", "/m:nt", "/m:ad", "/m:missing", "/m:c/m:deep/m:er", "/zz:c"}
 	aug := "augment " + targets[pick(1, len(targets))] + " { " + []string{"leaf added { type string; }", "container added { leaf in { type string; } }", "uses ga;", "case ac { leaf added { type string; } }"}[pick(1, 4)] + " } "
 	inc := []string{"", "include s1; ", "include s1; include s2; ", "include nosuch; "}[pick(2, 4)]
 	imp := []string{"", "import n { prefix n; } ", "import absent { prefix ab; } "}[pick(2, 3)]
